@@ -529,7 +529,7 @@ func vpsampGen(gc vpsampGenCfg) *rapid.Generator[vpsampCase] {
 	return rapid.Custom(func(t *rapid.T) vpsampCase {
 		var c vpsampCase
 		b := func(label string, pct int) bool { return rapid.IntRange(0, 99).Draw(t, label) < pct }
-		if gc.ZeroMode && b("zero_mode", 12) {
+		if gc.ZeroMode && rapid.IntRange(0, 99).Draw(t, "zero_mode") >= 76 { // rapid favours small values: about 12% of the cases
 			return vpsampGenZero(t)
 		}
 		c.Opt = vpsampOpt{
